@@ -5,6 +5,34 @@ VERIF = os.path.dirname(os.path.dirname(os.path.abspath(__file__)))
 ALL = ['C%02d' % i for i in range(1, 21)]
 
 CLAIMED = {
+ 'C01': dict(
+    text="Theorem C01_roundtrip_partial (Coq, induction on nesting fuel and field lists, unbounded): for every class table satisfying ct_rt (everything but bit-field runs), every input and start offset, if unpack succeeds with consumed-chunk trace t then pack() of the result is the sparse array holding every chunk at (position - offset) and '.' elsewhere, and raises exactly when two chunks overlap (via the C11 refinement); C01_trace_symmetry is the inductive core; C01_offset_refuted is the machine-checked witness of finding D10. Generated code is covered through C03. Tie: regenerated kernels (Fragments, Move, Sequence, Int, Data, Bits) + bridges; whole-packet correspondence on random class tables (encodings, truncations, flips, start offsets 1 and 4); implementation-only oracle using the consumed intervals reported by the generic parser.",
+    note="Trusted: Coq kernel + vm_compute; pygen; declaration generator/renderers; the metaclass plumbing is modelled by Model/Decl.describe and tied by correspondence only. Bit runs: kernel theorem C07_unpack_pack + correspondence (not C01_roundtrip_partial). Known finding D10 (start-of-data positioning with incompatible start offset) is reported as KNOWN-FINDING.",
+    technique="Coq proof of trace symmetry unpack/pack over the declaration language + C11 sparse-array refinement + vm_compute correspondence", design="8/C01"),
+ 'C04': dict(
+    text="Theorems (Coq, all declarations incl. generated code, all inputs/offsets): a successful unpack consumed only chunks that lie inside the input at non-negative positions and are literally the input's bytes (C04_strict); each leaf consumed exactly its declared size and its value is the decode of exactly those bytes (C04_leaf_exact); for any cut, whatever still parses consumed only bytes before the cut (C04_truncation). Tie: kernels Int/Data/Move/Seq/Bits + bridges; exhaustive truncation of single-field classes for every width 1..9,16 and bit groups of 24/40/48 bits at offsets 0..2 on generated and generic code; random tables with every truncation; consumed intervals observed on the implementation.",
+    note="Trusted: Coq kernel + vm_compute; pygen; generators; interval recorder wraps the leaf decoders from the harness process (struct runs of generated code are checked by the end-offset bound and by correspondence).",
+    technique="Coq proof of consumed-chunk strictness over the interpreters + exhaustive truncation correspondence", design="8/C04"),
+ 'C08': dict(
+    text="Theorems (Coq, for every nested parser, state and input): a false when-condition gives an empty list and consumes nothing; a count gives exactly max(count,0) elements; an until-loop ends exactly when the condition (over the list built so far) is true, stops at once if already true and otherwise parses exactly one more aligned element; an optional is None and consumes/emits nothing iff its condition is false; a reference parses the nested packet at the cursor and continues after it. Tie: kernel G4_seq + bridge; correspondence on random tables rich in repeated/optional/selected fields; reference interpretation of the control rules alone re-examines every parsed packet on the implementation.",
+    note="Trusted: Coq kernel + vm_compute; pygen; generators; the reference interpreter of the oracle shares the expression evaluator of the generator (harness/gen.py), not the model.",
+    technique="Coq proofs (loop invariants on count/until) + vm_compute correspondence + reference control interpreter", design="8/C08"),
+ 'C12': dict(
+    text="Theorems (Coq): every failing parse/serialize of the model is a PacketError-shaped stack by construction; the stack's last entry is the FIRST field (or struct run in generated code) that failed, at the cursor the previous fields left, with one entry appended per enclosing packet level, outer entries only from nested packet parses (C12_unpack_locates, _generated, C12_nested_from_packets, C12_unpack_stack_shape); when serializing all entries carry the cursor at the failure (C12_pack_locates, C12_pack_stack_shape). Tie: template-matched kernels G9_errors (every except arm of packet.py) and G11_codegen (the generated-code templates) ; correspondence compares complete error stacks (offset, field, class) for every failing truncation/flip/value, generated and generic; oracle: no non-PacketError escapes, str() works, phase flag, stack follows the declaration, silent=True, non-bytes input. Finding D12 (descriptor hook outside the wrapped region) is a KNOWN-FINDING.",
+    note="Trusted: Coq kernel + vm_compute; pygen templates; generators. Exception KINDS inside a field are not compared (all become PacketError); messages are not compared.",
+    technique="Coq proof of error-stack decomposition + template-matched kernels + vm_compute correspondence on full error stacks", design="8/C12"),
+ 'C14': dict(
+    text="Theorems (Coq, all local declarations, inputs, prefixes, suffixes): unpack(pre++raw, |pre|+off) equals unpack(raw, off) with every position shifted, successes and failures alike (C14_prefix, needs forward-only positioning); the success direction without that condition (C14_prefix_success); appended bytes never change a successful parse without regex / read-to-end fields (C14_suffix); C14_prefix_refuted_backward_move is the machine-checked witness of finding D13. Tie: kernels Data/Move/Seq/Int + bridges; correspondence and pairwise comparison of the implementation's outcomes behind prefixes of 1,3,6 bytes, with suffixes, and for truncated (failing) inputs.",
+    note="Trusted: Coq kernel + vm_compute; pygen; generators. Finding D13 (a relative move to before the packet's start reads the preceding bytes) is a KNOWN-FINDING.",
+    technique="Coq proof of shift-invariance of the interpreters + vm_compute correspondence + metamorphic comparison", design="8/C14"),
+ 'C19': dict(
+    text="Theorems (Coq): per-kind default table (integers: given default; fixed byte string: NUL bytes of the declared size; given defaults kept); every value-bearing field of a constructed packet holds the keyword's value if named, else its own declared default (prototype copy for references, given/empty list, given/None), independently of the other fields (C19_defaults); keywords override exactly the fields they name (C19_keywords_local). Tie: template-matched Packet.__init__ (G10_eq); correspondence on Cls(**kw) for all keyword subsets of classes up to 6 fields; oracle recomputes the declared defaults from the declaration and compares pack() with the pack() of the fully explicit construction.",
+    note="Trusted: Coq kernel + vm_compute; pygen template; generators; copy.deepcopy/pickle of prototypes modelled as structural copy (freshness is C13).",
+    technique="Coq proof over init_fields + vm_compute correspondence + metamorphic pack comparison", design="8/C19"),
+ 'C20': dict(
+    text="Theorems (Coq): != is the negation of ==; == holds exactly when same class and every listed attribute is unset on both sides or equal (C20_structural); reflexive on parsed/constructed values, so two parses of the same bytes are equal; changing one field, another class or a non-packet make them unequal; __repr__ only reads attributes that hold a value. Tie: template-matched __eq__/__repr__ (G10_eq, incl. the D4 fix); correspondence on ==/!= of constructed packets; oracle on parsed packets of declarations where positioning modifiers, class align and Em are frequent (parse twice, change one field at any depth, other class, other type, repr).",
+    note="Trusted: Coq kernel + vm_compute; pygen template; generators. Totality in the model is by construction (total functions); on the implementation it is the oracle's no-exception check.",
+    technique="Coq proof of structural equality + template-matched kernel + vm_compute correspondence", design="8/C20"),
  'C03': dict(
     text="Theorems (Coq, all declarations, inputs, values, all option combinations): the model of the code generator (gen_blocks: group by fixedness, struct code, endianness iff vectorize) executed block by block yields the same values, end offset and consumed chunks as the generic field loop and fails on exactly the same inputs; pack yields buffers with the same content (hence the same bytes) and fails on the same values, provided every Data(n) holds n bytes (else the refutation witness C03_refuted_data_len = finding D11). Tie: per generated module, the text bisturi wrote is read back and its block structure compared with gen_blocks inside Coq (translation validation of every class compiled by the check); model and implementation run the same parses/packs under 4 (quick) or 16 (thorough) option combinations; combinations are compared pairwise on the implementation.",
     note="Trusted: Coq kernel + vm_compute; the meaning of the three-line templates of generated code and of python's struct module (modelled by struct_unpack/struct_pack); harness reader of generated modules; annotate only adds comments (not modelled).",
